@@ -36,27 +36,37 @@ Qed.
 
 Definition is_unsub (c : cmd) : bool := match c with CUnsubscribe _ => true | _ => false end.
 
-Definition ev_ok_b (ev : event) : bool :=
-  match ev with ECmd _ c => cmd_loud c && Nat.leb (cmd_depth c) max_batch_nest | _ => true end.
+Definition ev_ok_b (o : sid) (ev : event) : bool :=
+  match ev with ECmd b c => cmd_loud_for (N.eqb b o) c && Nat.leb (cmd_depth c) max_batch_nest | _ => true end.
 
+(* a sufficient test of ev_clean that does not look at the state: no explicit GETDATA at all (cmd_covered itself compares
+   filters, which MatchOps does not make decidable) *)
 Definition ev_clean_b (o : sid) (ev : event) : bool :=
   match ev with
   | ECmd b c => if N.eqb b o then cmd_subs_ok_b c && (cmd_plain c || is_unsub c) else true
   | _ => true
   end.
 
-Lemma ev_ok_b_spec : forall evs, forallb ev_ok_b evs = true -> Forall ev_ok evs.
+Lemma ev_ok_b_spec : forall o evs, forallb (ev_ok_b o) evs = true -> Forall (ev_ok o) evs.
 Proof.
-  induction evs as [|ev evs IH]; intros H; constructor; cbn [forallb] in H; apply andb_true_iff in H as [H1 H2]; auto.
+  intros o. induction evs as [|ev evs IH]; intros H; constructor; cbn [forallb] in H; apply andb_true_iff in H as [H1 H2]; auto.
   destruct ev; cbn in *; auto. apply andb_true_iff in H1 as [Ha Hb]. split; auto. now apply Nat.leb_le.
 Qed.
 
-Lemma ev_clean_b_spec : forall o evs, forallb (ev_clean_b o) evs = true -> Forall (ev_clean o) evs.
+Lemma ev_clean_b_one : forall o ev w, ev_clean_b o ev = true -> ev_clean o w ev.
 Proof.
-  intros o. induction evs as [|ev evs IH]; intros H; constructor; cbn [forallb] in H; apply andb_true_iff in H as [H1 H2]; auto.
+  intros o ev w H1.
   destruct ev as [| |b c]; cbn [ev_clean ev_clean_b] in *; auto. intros E. subst b. rewrite N.eqb_refl in H1.
   apply andb_true_iff in H1 as [Ha Hb]. split; [now apply cmd_subs_ok_b_spec|].
-  apply orb_true_iff in Hb as [Hb|Hb]; [now left|right]. destruct c; try discriminate. eauto.
+  apply orb_true_iff in Hb as [Hb|Hb]; [left|right].
+  - split; [now apply nounsub_of_plain|]. intros ss _. now apply covered_of_plain.
+  - destruct c; try discriminate. eauto.
+Qed.
+
+Lemma ev_clean_b_spec : forall o evs w, forallb (ev_clean_b o) evs = true -> clean_wrun fx o w evs.
+Proof.
+  intros o. induction evs as [|ev evs IH]; intros w H; [exact I|]. cbn [forallb] in H. apply andb_true_iff in H as [H1 H2].
+  split; [now apply ev_clean_b_one|now apply IH].
 Qed.
 
 Fixpoint wf_wrun_b (w : world) (evs : list event) : bool :=
@@ -76,11 +86,11 @@ Qed.
 
 (* all premises of mirror_converges_partial at once *)
 Definition premises_b (evs : list event) (o : sid) : bool :=
-  wf_wrun_b empty_world evs && forallb ev_ok_b evs && forallb (ev_clean_b o) evs
+  wf_wrun_b empty_world evs && forallb (ev_ok_b o) evs && forallb (ev_clean_b o) evs
   && N.ltb (N.of_nat (run_budget evs)) 2147483647.
 
 Lemma premises_b_spec : forall evs o, premises_b evs o = true ->
-  wf_wrun fx empty_world evs /\ Forall ev_ok evs /\ Forall (ev_clean o) evs /\ small (run_budget evs).
+  wf_wrun fx empty_world evs /\ Forall (ev_ok o) evs /\ clean_wrun fx o empty_world evs /\ small (run_budget evs).
 Proof.
   intros evs o H. unfold premises_b in H. repeat (apply andb_true_iff in H as [H ?]).
   split; [now apply wf_wrun_b_spec|split; [now apply ev_ok_b_spec|split; [now apply ev_clean_b_spec|]]].
